@@ -254,9 +254,11 @@ func runDiffCommand() {
 	check(err)
 
 	var comparisons gedcom.IndividualComparisons
+	compareFinished := make(chan struct{})
 
 	go func() {
 		comparisons = leftIndividuals.Compare(rightIndividuals, compareOptions)
+		close(compareFinished)
 	}()
 
 	if optionProgress {
@@ -276,6 +278,10 @@ func runDiffCommand() {
 		for range compareOptions.Notifier {
 		}
 	}
+
+	// The notifier is closed just before Compare returns. Wait until the result
+	// has been assigned as well.
+	<-compareFinished
 
 	diffProgress := make(chan gedcom.Progress)
 
